@@ -486,7 +486,15 @@ async def apply_pycall(pool, surface, py):
             lead = [kwargs.pop(n) for n in pos_names if n in kwargs]
             out = fn(*lead, *var, **kwargs)
         else:
-            out = fn(**kwargs)
+            # positional-only parameters can only be given by position
+            import inspect as _inspect
+            lead = []
+            for prm in _inspect.signature(fn).parameters.values():
+                if prm.kind is prm.POSITIONAL_ONLY and prm.name in kwargs:
+                    lead.append(kwargs.pop(prm.name))
+                else:
+                    break
+            out = fn(*lead, **kwargs)
         if asyncio.iscoroutine(out):
             out = await out
         return "ok" if out is None else str(out)
